@@ -21,6 +21,8 @@ CLAIM = (
     "read on the unchanged tree (baselines/skips.json): a new skip means elements that were examined are no longer examined."
     " TRUTHY: in the modules in scope no Optional[int|str|float|bytes] is tested by truthiness (a bound of 0 or an empty pattern is a "
     "constraint, not the absence of one); zero instances on the unchanged tree, kept alive by a positive control."
+    " ARITY: the matchers of the schema inference read `node.values[i]` / `node.args[i]` only after establishing the exact number of "
+    "operands (an ignored extra operand makes the inferred constraint stronger than the invariant)."
 )
 NOTE = (
     "Oracle: integer arithmetic on lengths (trusted, 12 rows). Not decided: that every accepted invariant form is recognised, and the "
@@ -74,6 +76,12 @@ def run(ctx) -> None:
         if _m.name.startswith("aas_core_codegen.infer_for_schema"):
             for _f in _m.functions.values():
                 _truthy.check_truthy(ctx, _f, "TRUTHY")
+    ctx.rule("ARITY", "matchers of the inference read a fixed number of operands only after establishing exactly that arity", floor=4)
+    from ..rules import arity as _arity
+    for _m in ctx.p.modules.values():
+        if _m.name.startswith("aas_core_codegen.infer_for_schema"):
+            for _f in _m.functions.values():
+                _arity.check_arity(ctx, _f, "ARITY")
 
 
 def _check_bounds(ctx) -> None:
